@@ -360,7 +360,8 @@ SPEC = PropSpec(
                  "right-aligned in ceil(n/8) bytes; the aligned slice path via x%8==0 => x=8x') and advances the "
                  "cursor exactly once by n. This is a proof for all buffers, positions and widths. A witness search "
                  "(abstract interpreter on all (pos, width) of buffers <= 3 bytes x 4 bit patterns, plus wide reads "
-                 "up to 96 bits) turns any unprovable variant into a concrete counterexample and cross-checks the proof."),
+                 "up to 96 bits) turns any unprovable variant into a concrete counterexample and cross-checks the proof."
+                 ' R3.w also runs sequences of reads on one object with the cursor set backwards and forwards between reads (no stale window kept on the object).'),
     rule_doc=("R3.1 one obligation per (path, slice mode) of _extract_bits; R3.2 per feasible path of the two readers; "
               "R3.3 immutability of the buffer class; R3.w witness search per function."),
     assumptions=["CPython semantics of int.from_bytes/to_bytes, >>, &, slicing", "lemma base L1-L8 (re-validated by --selftest)"],
